@@ -351,7 +351,10 @@ def assemble(unit, index, expanded_name='expanded.rs', probe=None, lenient=False
                     fields = [f.strip() for f in _split_top(mt.group(2)) if f.strip()]
                     fields = [f if f.startswith('pub') else 'pub ' + f for f in fields]
                     t = t[:mt.start()] + mt.group(1) + '(' + ', '.join(fields) + ');' + '\n' * mt.group(0).count('\n') + t[mt.end():]
-                t = re.sub(r'(?m)^(\s+)(?!pub\b)([A-Za-z_]\w*\s*:)', r'\1pub \2', t)
+                # only inside the field block: generic parameter lists may continue over several lines (`const N : usize`)
+                br = t.find('{')
+                if br >= 0:
+                    t = t[:br] + re.sub(r'(?m)^(\s+)(?!pub\b)([A-Za-z_]\w*\s*:)', r'\1pub \2', t[br:])
             for k, ln in enumerate(t.split('\n')):
                 if ln.strip():
                     out.lines.append(Line(ln, 'src', None, expanded_name, its[0].line + k))
